@@ -7,6 +7,8 @@
 #include <algorithm>
 #include <cstdio>
 #include <cstdlib>
+#include <cstring>
+#include <functional>
 #include <iostream>
 #include <memory>
 #include <random>
@@ -227,6 +229,43 @@ namespace {
                      .set("chars", enc(s.characters())).set("size", static_cast<long>(s.size()));
                   emit(ev);
                }
+         // words with equal hash codes (the 64-bit murmur of libstdc++ mixes each 8-byte block by a bijection, so for any
+         // first block a second block with the same final code exists): a family of six 16-byte words, interned in every
+         // order of revisiting; skipped, and said so, where the standard library hashes differently
+         {
+            using u64 = std::uint64_t;
+            constexpr u64 mul = (u64{0xc6a4a793} << 32) + u64{0x5bd1e995};
+            auto mix = [](u64 v) { return v ^ (v >> 47); };
+            u64 inv = mul;
+            for (int i = 0; i < 6; ++i) inv *= 2 - mul * inv;
+            auto f = [&](u64 x) { return mix(x * mul) * mul; };
+            auto finv = [&](u64 y) { return mix(y * inv) * inv; };
+            auto load = [](const char* p) { u64 v; std::memcpy(&v, p, 8); return v; };
+            const u64 h0 = u64{0xc70f6907} ^ (u64{16} * mul);
+            const std::string a = "first_colliding_";
+            std::vector<std::string> family { a };
+            for (auto first : { "another_", "thirdone", "\0\0\0\0\0\0\0\1", "int\0int\0", "zzzzzzzz" }) {
+               std::string head(first, 8);
+               u64 fb2 = f(load(a.data() + 8)) ^ ((h0 ^ f(load(a.data()))) * mul) ^ ((h0 ^ f(load(head.data()))) * mul);
+               u64 second = finv(fb2);
+               std::string b = head + std::string(8, '\0');
+               std::memcpy(b.data() + 8, &second, 8);
+               family.push_back(b);
+            }
+            const std::hash<std::u8string_view> hash { };
+            auto code = [&](const std::string& w) { return hash(std::u8string_view(reinterpret_cast<const char8_t*>(w.data()), w.size())); };
+            bool same = sizeof(std::size_t) == 8;
+            for (auto& w : family) same = same and code(w) == code(a);
+            auto note = Value::object();
+            note.set("e", "note").set("what", "equal-hash family").set("built", same).set("words", static_cast<long>(family.size()));
+            std::cerr << vj::dump(note) << "\n";
+            if (same) {
+               for (std::size_t k = 0; k < family.size(); ++k)
+                  for (std::size_t j = 0; j <= k; ++j) emit(P.intern_event(1, family[k - j]));            // newest first, back to the oldest
+               for (std::size_t k = 0; k < family.size(); ++k) emit(P.intern_event(1, family[k]));       // oldest first
+               for (auto& w : family) { emit(P.intern_event(2, w)); emit(P.intern_event(2, family[0])); }
+            }
+         }
          for (int id = 1; id < static_cast<int>(P.strings.size()); ++id) emit(P.observe_event(id));
       }
       // -- run 2: arena boundaries (inline header, 16-byte granules, pool capacity, oversize)
